@@ -436,6 +436,42 @@ func (c *seqCase) genOp() op {
 				continue
 			}
 			return op{K: "set_svc", H: cand[c.rng.IntN(len(cand))].ID, Svc: c.rng.IntN(nSvcs)}
+		case k < 60:
+			// steer towards the rare re-parenting shapes: an allow-listed connection whose peer
+			// turns out not to be allow-listed is moved to the standard scopes; when those are
+			// still full, free something there first.
+			var cand []*holder
+			for _, h := range m.holders {
+				if h.Kind == kConn && !h.Done && h.Allow && h.Peer < 0 {
+					cand = append(cand, h)
+				}
+			}
+			if len(cand) == 0 {
+				continue
+			}
+			h := cand[c.rng.IntN(len(cand))]
+			p := -1
+			for q := 0; q < nPeers; q++ {
+				if !c.cfg.allowedPeer(q, endpoints[h.EP].IP) && (p < 0 || c.rng.IntN(2) == 0) {
+					p = q
+				}
+			}
+			if p < 0 {
+				continue
+			}
+			if pr := c.predictSetPeer(h, p); !pr.f4shape {
+				return op{K: "set_peer", H: h.ID, Peer: p}
+			}
+			var free []*holder
+			for _, x := range m.holders {
+				if !x.Done && ((x.Kind == kConn && !x.Allow) || x.Kind == kStream) {
+					free = append(free, x)
+				}
+			}
+			if len(free) == 0 {
+				continue
+			}
+			return op{K: "done", H: free[c.rng.IntN(len(free))].ID}
 		case k < 74:
 			tg, ok := c.pickTarget(true)
 			if !ok {
